@@ -10,6 +10,7 @@ round-trip rule itself."""
 import json, struct, os, glob, re
 from vlib import common as C
 
+DRIVERS = ['Json']   # model driver files this check runs: scopes translator failures to the tables they (and the proofs) import
 TRUSTED = [
     "floats are opaque tokens: the model carries the text Rust's f64 Display printed (asked from the harness, op jfdisp) and the text "
     "the parser saw; ASSUMED: Rust's f64/f32 Display/FromStr round-trip (parse(display(x)) == x, also with '.0' appended to an integral value)",
